@@ -1250,7 +1250,7 @@ func randomCase(r *vh.RNG) *c06Case {
 }
 
 func main() {
-	run := vh.Start("Verif.Corr.C06", 300)
+	run := vh.Start("Verif.Corr.C06", 800)
 	defer run.Finish()
 	run.Rule = "keyper sets of real ECDSA addresses (n<=3 enumerated: every threshold 0..n+1 x every signer list of length 0..n+1 over {0..n} x every signature count 0..n+1; every signature list over the 13-entry alphabet for every well-formed signer list; n=4 sampled in quick, enumerated in thorough), both flavours, the access node handler and the keyper chain; non-trivial = the signer list passes the count/order/range tests so the verdict is decided by the signatures; distinct by canonical JSON of the case"
 	initUniverse()
